@@ -103,6 +103,10 @@ def run(ctx):
     c03_view.check_stop_maintenance(ctx)
     c03_view.check_async_twins(ctx, F)
     c03_view.check_code_forms(ctx)
+    from .. import litdomain
+    ctx.rule('R3.9', "internal callers pass indices inside the declared domain `int | Literal['end']` (or `Literal['end'] | None`): the kernels "
+                     "single out 'end' / None by equality / identity, a different literal of the same truthiness is normalised as something else", 150)
+    litdomain.check(ctx, 'R3.9', lambda fi, p, ann: "Literal['end']" in ann, 150)
 
     # ---- R3.3a exhaustiveness of single-element tables --------------------------------------------------------------
     ctx.rule('R3.3a', 'every (class, field) of the grammar is a key of _PUT_ONE_HANDLERS and _GET_ONE_HANDLERS or in the '
